@@ -63,21 +63,7 @@ func checkUnsafe(p *Program, r *Report) {
 			case rel == "libopenwater" || strings.HasPrefix(rel, "cmd/"):
 				// pointer hand-over at the C ABI: only *to* unsafe.Pointer, as constructor argument
 				if isUnsafePointer(cv.Type()) {
-					okSite = true
-					for _, ref := range refs(cv) {
-						c, ok := ref.(*ssa.Call)
-						if !ok {
-							if _, isDbg := ref.(*ssa.DebugRef); isDbg {
-								continue
-							}
-							okSite = false
-							continue
-						}
-						cn := callName(c.Common())
-						if !(strings.HasPrefix(cn, "New") && strings.HasSuffix(cn, "CArray")) && !strings.HasPrefix(cn, "_Cfunc_") && !strings.HasPrefix(cn, "_cgo") {
-							okSite = false
-						}
-					}
+					okSite = ptrOnlyToCtor(cv, 0)
 				}
 				if strings.HasPrefix(name, "_Cfunc_") || strings.HasPrefix(name, "_cgo") || fn.Synthetic != "" {
 					okSite = true
@@ -150,7 +136,52 @@ func checkProtocol(p *Program, r *Report, pkgs []string, rule string, cEntry boo
 	n := 0
 	for _, rel := range pkgs {
 		for _, fn := range p.PkgFuncs(rel) {
-			for _, mc := range modelCallsIn(fn) {
+			mcs := modelCallsIn(fn)
+			// a helper of the same package that is handed the model performs its calls on the caller's behalf:
+			// those it makes on every path count at the position of the call to the helper
+			proxy := map[*ssa.Call]bool{}
+			for _, c := range callsIn(fn) {
+				call, ok := c.(*ssa.Call)
+				h := c.Common().StaticCallee()
+				if !ok || h == nil || h.Blocks == nil || fnPkg(h) != fnPkg(fn) || h == fn {
+					continue
+				}
+				for ai, a := range c.Common().Args {
+					if !isModelIface(a.Type()) || ai >= len(h.Params) {
+						continue
+					}
+					var target *modelCalls
+					for _, mc := range mcs {
+						if sameModel(mc.model, a) {
+							target = mc
+						}
+					}
+					if target == nil {
+						target = &modelCalls{model: a, calls: map[string][]*ssa.Call{}}
+						mcs = append(mcs, target)
+					}
+					for _, hm := range modelCallsIn(h) {
+						if origin1(hm.model) != ssa.Value(h.Params[ai]) {
+							continue
+						}
+						for name, cs := range hm.calls {
+							for _, c2 := range cs {
+								always := true
+								for _, ret := range returnsOf(h) {
+									if !c2.Block().Dominates(ret.Block()) {
+										always = false
+									}
+								}
+								if always {
+									target.calls[name] = append(target.calls[name], call)
+									proxy[call] = true
+								}
+							}
+						}
+					}
+				}
+			}
+			for _, mc := range mcs {
 				aps := mc.calls["ApplyParameters"]
 				if len(aps) == 0 {
 					continue
@@ -168,6 +199,9 @@ func checkProtocol(p *Program, r *Report, pkgs []string, rule string, cEntry boo
 						}
 					}
 					// handshake
+					if proxy[ap] {
+						continue // performed (and judged) inside the helper
+					}
 					why := handshake(p, fn, mc, ap)
 					if why == "" {
 						r.OK(rule, key+": FindDimensions→InitialiseDimensions precedes ApplyParameters")
@@ -175,7 +209,7 @@ func checkProtocol(p *Program, r *Report, pkgs []string, rule string, cEntry boo
 						r.Fail(rule, key+":dimension-handshake", p.Pos(ap.Pos()), "ApplyParameters without the FindDimensions→InitialiseDimensions handshake its sibling entry points perform: "+why+" (a model with table parameters then decodes them with extent 0)")
 					}
 				}
-				if cEntry {
+				if cEntry && len(mc.calls["Run"]) > 0 {
 					checkCEntryStates(p, r, fn, mc, rule)
 				}
 			}
@@ -537,4 +571,38 @@ func checkCEntryStates(p *Program, r *Report, fn *ssa.Function, mc *modelCalls, 
 	} else {
 		r.Fail(rule, key+":copyback:missing", p.Pos(run.Pos()), "when the library initialises the states itself, the final states never reach the caller's buffer")
 	}
+}
+
+
+// ptrOnlyToCtor: every use of the raw pointer v hands it to a C-array constructor (or a cgo stub), directly or
+// through a module helper whose own parameter is used in that way only.
+func ptrOnlyToCtor(v ssa.Value, depth int) bool {
+	if depth > 3 {
+		return false
+	}
+	for _, ref := range refs(v) {
+		if _, isDbg := ref.(*ssa.DebugRef); isDbg {
+			continue
+		}
+		c, ok := ref.(*ssa.Call)
+		if !ok {
+			return false
+		}
+		cn := callName(c.Common())
+		if strings.HasPrefix(cn, "New") && strings.HasSuffix(cn, "CArray") || strings.HasPrefix(cn, "_Cfunc_") || strings.HasPrefix(cn, "_cgo") {
+			continue
+		}
+		f := c.Common().StaticCallee()
+		if f == nil || f.Blocks == nil || !InModule(f) {
+			return false
+		}
+		for i, a := range c.Common().Args {
+			if a == v {
+				if i >= len(f.Params) || !ptrOnlyToCtor(f.Params[i], depth+1) {
+					return false
+				}
+			}
+		}
+	}
+	return true
 }
